@@ -7,7 +7,7 @@ ID = "C34"
 LEVEL = "exploration"
 ENGINE = "E0 pure"
 TECHNIQUE = ("model-based testing: Hypothesis-generated streams of announcement batches from several ed25519 keys (valid, signed by another key than claimed, flipped message "
-             "or signature bytes, unsigned, non-v0 or undecodable signature/key fields, replays, reorderings, missing and non-integer sequence numbers, unsubscribed services) "
+             "or signature bytes, well-formed signature fields of the wrong decoded length (0..128 bytes), unsigned, non-v0 or undecodable signature/key fields, replays, reorderings, missing and non-integer sequence numbers, unsubscribed services) "
              "fed to a real IntroducerClient with a subscriber; dictionary model of the documented replacement rule; delivered announcements compared with the model")
 RULE = ("each case: 2-4 keys, 1-6 batches of 1-5 announcements. Model: an announcement is processed iff its signature verifies under the key it claims; per (service, key) the "
         "first one is stored, an identical one is ignored, one with an integer seqnum greater than the stored seqnum replaces it, one with an equal/lower/missing/non-integer "
@@ -17,9 +17,9 @@ RULE = ("each case: 2-4 keys, 1-6 batches of 1-5 announcements. Model: an announ
         "lower seqnum after a higher one; distinct by whole case.")
 LEVEL_TEXT = "Random announcement streams against a dictionary model of the replacement rule."
 ASSUMPTIONS = ["each element of a batch is a 3-tuple (msg, sig, key) of bytes or None, as the Foolscap schema enforces", "ed25519 from the cryptography package is sound"]
-REQUIRED_CLASSES = ["bad-then-valid-in-batch", "wrong-key", "flipped", "unsigned", "malformed-encoding", "replay", "lower-seqnum", "equal-seqnum", "replaced", "nonint-seqnum", "other-service"]
+REQUIRED_CLASSES = ["bad-then-valid-in-batch", "wrong-key", "flipped", "unsigned", "malformed-encoding", "sig-wrong-length", "replay", "lower-seqnum", "equal-seqnum", "replaced", "nonint-seqnum", "other-service"]
 BUDGET = {"quick": 600, "thorough": 3600}
-KINDS = ["valid", "valid", "valid", "valid", "wrong-key", "flip-msg", "flip-sig", "unsigned", "sig-no-v0", "key-no-v0", "sig-bad-b32", "key-bad-b32", "key-short", "replay", "other-service"]
+KINDS = ["valid", "valid", "valid", "valid", "wrong-key", "flip-msg", "flip-sig", "unsigned", "sig-no-v0", "key-no-v0", "sig-bad-b32", "key-bad-b32", "key-short", "sig-len", "sig-len", "replay", "other-service"]
 
 
 def plan(tier):
@@ -126,6 +126,15 @@ def run_case(case, ctx):
                 t = (t[0], t[1], t[2][:10] + b"1" + t[2][11:])
                 valid = False
                 classes.add("malformed-encoding")
+            elif kind == "sig-len":
+                # a well-formed "v0-"+base32 signature field whose decoded length is not (or is) 64 bytes
+                from allmydata.util import base32
+                raw = base32.a2b(t[1][3:])
+                n = [0, 1, 32, 63, 65, 96, 128, 64][a["pos"] % 8]
+                raw2 = (raw + raw)[:n] if n != 64 else bytes(64)
+                t = (t[0], b"v0-" + base32.b2a(raw2), t[2])
+                valid = False
+                classes.add("sig-wrong-length" if n != 64 else "flipped")
             elif kind == "key-short":
                 t = (t[0], t[1], t[2][:-4])
                 valid = False
